@@ -86,6 +86,33 @@ let () =
       | _ -> "BADCASE") in
   register "tr.skip" (skip "tr.skip");
   register "tr.skipuv" (skip "tr.skipuv");
+  (* >>> s_c09 (wave 6): a history of calls on one reader: n<k> (k tokens), k (skip_container), u (skip_unquoted_value) *)
+  register "tr.skipn" (function
+      | [cap; sched; h; ops] ->
+        let input = bytes_of_hex h in
+        let fuel = fuel_for input sched in
+        let r0 = mk_reader cap sched input in
+        let rec go r ops acc =
+          match ops with
+          | [] -> Stdlib.String.concat " " (Stdlib.List.rev (show_run (drain fuel input r) :: acc))
+          | op :: rest ->
+            if op = "" || op = "-" then go r rest acc
+            else if op.[0] = 'n' then
+              (match read_n fuel r (int_of_string (Stdlib.String.sub op 1 (Stdlib.String.length op - 1))) with
+               | None -> Stdlib.String.concat " " (Stdlib.List.rev ("SHORT" :: acc))
+               | Some r' -> go r' rest acc)
+            else
+              (match (if op = "k" then TextReader.skip_container fuel r else TextReader.skip_unquoted_value fuel r) with
+               | Bytes.Ok r' -> go r' rest (("SKIP@" ^ string_of_int (int_of_nat (TextReader.reader_position r'))) :: acc)
+               | Bytes.Err e -> Stdlib.String.concat " " (Stdlib.List.rev (("ERR:" ^ string_of_n e) :: acc))
+               | _ -> crash_tag) in
+        let s = go r0 (Stdlib.String.split_on_char ',' ops) [] in
+        (* a crash while draining shows as the crash tag inside the run *)
+        if Stdlib.String.length s >= Stdlib.String.length crash_tag
+           && Stdlib.String.sub s (Stdlib.String.length s - Stdlib.String.length crash_tag) (Stdlib.String.length crash_tag) = crash_tag
+        then crash_tag else s
+      | _ -> "BADCASE");
+  (* <<< s_c09 *)
   register "tr.readbytes" (function
       | [cap; sched; h; ntok; nb] ->
         let input = bytes_of_hex h in
